@@ -111,12 +111,43 @@ def concrete_compare(spec: Any, replace: bool, seed: int = 0) -> Tuple[bool, str
 
 
 def replay_c16(obname: str, model: Dict[str, Any], info: Any) -> Tuple[bool, str]:
+    if info.get("history"):
+        return history_compare(_unplain(info["spec"]), int(info["history"]))
     return concrete_compare(_unplain(info["spec"]), bool(info.get("replace")))
 
 
-def task_program(spec: Any, replace: bool, timeout: float) -> List[Dict[str, Any]]:
+HISTORY = (True, False, True, False)  # replace flags of consecutive unit_scale calls in ONE process
+
+
+def history_compare(spec: Any, upto: int = len(HISTORY)) -> Tuple[bool, str]:
+    """consecutive unit_scale calls in one process, with and without user replacements: each call must follow the recipe with
+    the replacements of THAT call only (the built-in table is process-wide state)"""
+    bad = []
+    for i, flag in enumerate(HISTORY[:upto]):
+        b, desc = concrete_compare(spec, flag)
+        if b:
+            bad.append(f"call {i} (replace={flag}): {desc}")
+    return bool(bad), f"unit_scale({spec_name(spec)}) called {upto} times with replace={list(HISTORY[:upto])}: " + "; ".join(bad[:2] or ["every call follows its own replacements"])
+
+
+def task_history(spec: Any, timeout: float) -> List[Dict[str, Any]]:
+    """the symbolic translation validation of every call of the history (same process), then the concrete comparison of the history"""
     torch.set_num_threads(1)
-    name = spec_name(spec) + ("+replace" if replace else "")
+    recs: List[Dict[str, Any]] = []
+    for i, flag in enumerate(HISTORY):
+        recs += task_program(spec, flag, timeout, suffix=f"#call{i}", history_upto=i + 1)
+    name = spec_name(spec) + "/replacement history"
+    b, desc = history_compare(spec)
+    if b:
+        recs.append({"type": "violation", "key": f"C16/{name}", "what": desc, "replay": {"info": {"spec": _plain(spec), "history": len(HISTORY)}, "obligation": "history", "model": {}}})
+    else:
+        recs.append({"type": "obligation", "name": name, "status": CONCRETE, "queries": 0, "kind": "concrete", "detail": desc})
+    return recs
+
+
+def task_program(spec: Any, replace: bool, timeout: float, suffix: str = "", history_upto: int = 0) -> List[Dict[str, Any]]:
+    torch.set_num_threads(1)
+    name = spec_name(spec) + ("+replace" if replace else "") + suffix
     p = build(spec)
     cap = capture(_transform(replace), p, p.example_inputs())
     recs: List[Dict[str, Any]] = [{"type": "programs", "n": 1}]
@@ -133,8 +164,10 @@ def task_program(spec: Any, replace: bool, timeout: float) -> List[Dict[str, Any
         return recs
     recs.append({"type": "obligation", "name": f"{name}/runs on the real TorchDynamo path", "status": CONCRETE, "queries": 0, "kind": "concrete",
                  "detail": f"{len(list(cap.original.graph.nodes))} nodes captured, {len(list(cap.rewritten.graph.nodes))} after the backend"})
-    recs += discharge("C16", name, harness(spec, cap, replace), replay_c16, timeout, base_info={"spec": _plain(spec), "replace": replace},
-                      skip_definedness=True)
+    base = {"spec": _plain(spec), "replace": replace}
+    if history_upto:
+        base["history"] = history_upto  # the replay repeats the earlier calls of the history first
+    recs += discharge("C16", name, harness(spec, cap, replace), replay_c16, timeout, base_info=base, skip_definedness=True)
     return recs
 
 
@@ -205,6 +238,8 @@ def run(rep: Report, only: str = "") -> None:
     specs = programs(rep.tier) + root_specs()
     tasks: List[Any] = [(task_program, (s, False, timeout)) for s in specs]
     tasks += [(task_program, (s, True, timeout)) for s in specs if any(k == "tanh" or "tanh" in b for k, b in s[0])][: (200 if thorough else 40)]
+    hist = [s for s in specs if any(k == "tanh" or "tanh" in b for k, b in s[0])]
+    tasks += [(task_history, (s, timeout)) for s in hist[:: max(1, len(hist) // (12 if thorough else 4))][: (12 if thorough else 4)]]
     tasks.append((task_weights, ()))
     if only:
         tasks = [t for t in tasks if only in (spec_name(t[1][0]) if t[1] else "weights")]
@@ -233,4 +268,6 @@ def replay(data: Dict[str, Any]) -> Tuple[bool, str]:
         r = _never_transformed("C16", "replay", _unplain(info["spec"]), _transform(bool(info.get("replace"))), info)
         v = [x for x in r if x.get("type") == "violation"]
         return bool(v), str([x["what"] for x in v] or "transform applied")
+    if info.get("history"):
+        return history_compare(_unplain(info["spec"]), int(info["history"]))
     return concrete_compare(_unplain(info["spec"]), bool(info.get("replace")))
